@@ -50,10 +50,15 @@ def judge_kadj(case, r):
     conv = conv_of(hours, intF, intI)
     h = dict(zip(SIX, hours))
 
+    EPS = 1e-9     # hours; serde_json's default float parser may be 1 ulp off, so values cross the replay boundary inexactly
+
+    def eqv(a, b):
+        return abs(a - b) <= EPS
+
     def same(k):
         if o[k] is None or conv[k] is None:
             return o[k] is None and conv[k] is None
-        return o[k][0] == conv[k] and not o[k][1]
+        return eqv(o[k][0], conv[k]) and not o[k][1]
     if pol == "None":
         for k in SIX:
             if not same(k):
@@ -67,9 +72,16 @@ def judge_kadj(case, r):
             for k in ("Fajr", "Isha"):
                 if h[k] is not None and conv[k] is not None and not same(k):
                     out.append(("C08", "identity:" + pol, "%s changed a valid %s: %s vs %s" % (pol, k, o[k], conv[k])))
+                if h[k] is None and conv[k] is not None and not same(k):
+                    if o[k] is not None and eqv(o[k][0], conv[k]) and o[k][1]:
+                        out.append(("C08", "interval-flag", "%s flags the conventionally valid interval-defined %s (= %s, value unchanged) as extreme: the "
+                                    "discarded angle-based %s does not exist, the policy replaces and flags it, adj_for_int re-applies the interval "
+                                    "but keeps the flag" % (pol, k, conv[k], k)))
+                    else:
+                        out.append(("C08", "identity-interval:" + pol, "%s changed the conventionally valid interval-defined %s: %s vs %s" % (pol, k, o[k], conv[k])))
         if not pol.startswith("HalfOfNight"):
             for k in SIX:
-                if o[k] is not None and not o[k][1] and not (conv[k] is not None and o[k][0] == conv[k]):
+                if o[k] is not None and not o[k][1] and not (conv[k] is not None and eqv(o[k][0], conv[k])):
                     out.append(("C08", "flag:" + pol, "%s: unflagged %s = %s differs from conventional %s" % (pol, k, o[k][0], conv[k])))
         S_, M_ = h["Shurooq"], h["Maghrib"]
         if S_ is not None and M_ is not None and 0 <= S_ < M_ <= 24:
@@ -287,6 +299,50 @@ def good_day_boundary(found):
             _good_day_judge(found, lat, lon, gmt, method, dates, conv, idx, tag=" [%g deg inside the latitude where %s stops being a good day]" % (delta, G))
 
 
+def frame_grid(rep, policies=None, methods=("Egyptian", "Mwl", "Isna", "UmmAlQurra")):
+    """Public-API judge for C08 (every policy against policy None, unrounded seconds): Fajr/Isha-only policies leave Shurooq, Dhuhr, Asr,
+    Maghrib untouched; only-if-invalid policies leave conventionally valid Fajr/Isha untouched and unflagged; an unflagged time
+    equals the conventional one; a time that differs from the conventional one is flagged (half-of-night exempt from the flag clause).
+    Latitudes 45..70 in both hemispheres around both solstices (where exactly one / both / neither twilight exists)."""
+    found = {}
+    pols = [p for p in (policies or POLICIES) if p != "None"]
+    lats = [45.0, 48.0, 50.0, 52.0, 55.0, 58.0, 61.0, 64.0, 66.0, 67.5, 69.65]
+    lats = lats + [-x for x in lats]
+    dates = ["2023-06-0%d" % k for k in (1, 9)] + ["2023-06-21", "2023-07-05", "2023-07-20", "2023-05-10", "2023-04-15", "2023-08-15",
+             "2023-12-21", "2023-12-05", "2024-01-10", "2024-01-25", "2023-11-10", "2024-02-29", "2023-03-20", "2023-09-30"]
+    consuming = ("HalfOfNightFajrIshaAlways", "HalfOfNightFajrIshaInvalid", "MinutesFromMaghribFajrIshaInvalid")
+    sites = [(la, 10.0 if la > 0 else -68.3, 1.0 if la > 0 else -3.0, d) for la in lats for d in dates]
+    for method in methods:
+        conv = replay.run([api_case(la, lo, g, d, method, "None") for la, lo, g, d in sites])
+        for pol in pols:
+            if pol in consuming and method == "UmmAlQurra":
+                continue
+            outs = replay.run([api_case(la, lo, g, d, method, ext_json(pol, 48.5 if la > 0 else -48.5)) for la, lo, g, d in sites])
+            fi_only = pol not in ("NearestLatitudeAllPrayersAlways", "NearestGoodDayAllPrayersAlways")
+            for (la, lo, g, d), c, r in zip(sites, conv, outs):
+                case = api_case(la, lo, g, d, method, ext_json(pol, 48.5 if la > 0 else -48.5))
+                if "times" not in r or "times" not in c:
+                    continue      # panics are C07's subject
+                for p in SIX:
+                    ct, rt = c["times"][p], r["times"][p]
+                    same = (ct is None and rt is None) or (ct is not None and rt is not None and ct["secs"] == rt["secs"] and not rt["extreme"])
+                    bad = None
+                    if fi_only and p in ("Shurooq", "Dhuhr", "Asr", "Maghrib") and not same:
+                        bad = ("frame-other-four", "Fajr/Isha-only policy %s changed %s" % (pol, p))
+                    elif pol.endswith("Invalid") and p in ("Fajr", "Isha") and ct is not None and not same:
+                        if method in ("UmmAlQurra", "FixedIsha") and p == "Isha" and rt is not None and rt["secs"] == ct["secs"] and rt["extreme"]:
+                            bad = ("interval-flag", "only-if-invalid policy %s flags the conventionally valid interval-defined Isha (value unchanged) as extreme" % pol)
+                        else:
+                            bad = ("frame-valid-changed", "only-if-invalid policy %s changed or flagged the conventionally valid %s" % (pol, p))
+                    elif rt is not None and not rt["extreme"] and (ct is None or ct["secs"] != rt["secs"]) and not pol.startswith("HalfOfNight"):
+                        bad = ("frame-unflagged", "%s under %s is not flagged extreme but differs from the conventional time" % (p, pol))
+                    if bad:
+                        found.setdefault(bad[0], []).append(("%s at lat %s on %s (%s): conventional %s, reported %s" % (bad[1], la, d, method, ct, rt), case, r))
+    for key, items in found.items():
+        rep.violation(key, items[0][0] + " (+%d more)" % (len(items) - 1), [x[1] for x in items[:5]], items[0][2])
+    return bool(found)
+
+
 def imsaak_grid(rep):
     """Public-API judge for get_imsaak (C12/C03): Imsaak = Fajr recomputed at angle Fajr+Imsaak (angle methods), = Fajr - interval
     (Imsaak interval), and = extreme Fajr - (interval | 1.5 min) flagged when Fajr is extreme. Unrounded seconds, 1 s slack."""
@@ -304,11 +360,29 @@ def imsaak_grid(rep):
                 add(("interval", iv), lat, lon, gmt, date, method, "None", {"intervals": {"Imsaak": iv}})
                 add(("extreme", iv), lat, lon, gmt, date, method, "SeventhOfNightFajrIshaAlways", {"intervals": {"Imsaak": iv}})
             add(("extreme", 0.0), lat, lon, gmt, date, method, "SeventhOfNightFajrIshaAlways", {})
+    # the band where Fajr still exists but the Sun does not reach the Imsaak altitude (policy None): Imsaak must be Invalid there, and
+    # just inside it must be Fajr at the summed angle; the band is found by bisecting the latitude where the Fajr-angle event vanishes
+    for (sign, lon, gmt, date, method, aF) in ((1, -122.3, -8.0, "2023-06-21", "Shafi", 18.0), (-1, 170.0, 12.0, "2023-12-22", "Isna", 15.0),
+                                               (1, 10.0, 1.0, "2024-05-20", "Egyptian", 20.0)):
+        def has_fajr(lat):
+            r = replay.run([api_case(sign * lat, lon, gmt, date, method, "None")])[0]
+            return "times" in r and r["times"]["Fajr"] is not None
+        lo, hi = 30.0, 66.0
+        if not has_fajr(lo) or has_fajr(hi):
+            continue
+        for _ in range(30):
+            mid = (lo + hi) / 2
+            lo, hi = (mid, hi) if has_fajr(mid) else (lo, mid)
+        for aI in (0.5, 1.5, 3.0):
+            for back in (0.05, 0.3 * aI, 0.7 * aI, aI + 0.4):
+                la = sign * (lo - back)
+                add(("angle", aF, aI), la, lon, gmt, date, method, "None", {"angles": {"Imsaak": aI}})
+                add(("angle-ref", aF, aI), la, lon, gmt, date, method, "None", {"angles": {"Fajr": aF + aI}})
     outs = replay.run([c for _, c in cases])
     ref = {}
     for (tag, c), r in zip(cases, outs):
         if tag[0] == "angle-ref" and "times" in r:
-            ref[(c["lat"], c["date"], c["params"]["method"], tag[2])] = r["times"]["Fajr"]
+            ref[(c["lat"], c["date"], c["params"]["method"], tag[2])] = (r["times"]["Fajr"],)
     for (tag, c), r in zip(cases, outs):
         if "times" not in r:
             found.setdefault("imsaak-panic", []).append(("prayer_times_dt panics: %s" % r.get("panic"), c, r))
@@ -316,6 +390,11 @@ def imsaak_grid(rep):
         ims, fj = r["times"]["Imsaak"], r["times"]["Fajr"]
         if tag[0] == "angle":
             want = ref.get((c["lat"], c["date"], c["params"]["method"], tag[2]))
+            if want is not None and want[0] is None and ims is not None and c["params"]["ext"] == "None":
+                found.setdefault("imsaak-fabricated", []).append(("Imsaak = %s is reported (policy None) although the Sun never reaches the Imsaak altitude "
+                                                                  "%s+%s (Fajr at that angle is Invalid) [%s %s lat %s]" %
+                                                                  (ims, tag[1], tag[2], c["params"]["method"], c["date"], c["lat"]), c, r))
+            want = want[0] if want else None
             if want and (ims is None or abs(ims["secs"] - want["secs"]) > 1):
                 found.setdefault("imsaak-angle", []).append(("Imsaak with Imsaak angle %s = %s, Fajr at angle %s+%s = %s [%s %s lat %s]" %
                                                                (tag[2], ims, tag[1], tag[2], want, c["params"]["method"], c["date"], c["lat"]), c, r))
@@ -397,5 +476,35 @@ def purity_native(rep):
             rep.violation("hidden-state", "prayer_times_dt(%s, lat %s, gmt %s) returns different results depending on earlier calls in the same process" %
                           (p["date"], p["lat"], p["gmt"]), noise + [p], {"alone": a, "after_other_calls": b if a.get("times") != b.get("times") else c})
             return True
-    rep.assumptions.append("history independence of prayer_times_dt checked natively on %d probe calls interleaved with %d calls for other places/offsets" % (len(probes), len(noise)))
+    # the same place and date requested just before with ONE argument changed (a cache keyed on too few of the arguments)
+    import copy
+    def variants(p):
+        out = []
+        for k, v in (("round", "NormalRounding"), ("round", "AggressiveRounding"), ("minutes", {"Fajr": 7.0}), ("intervals", {"Imsaak": 10.0}),
+                     ("angles", {"Fajr": 17.5, "Isha": 16.0}), ("asr", "Hanafi"), ("ext", "SeventhOfNightFajrIshaAlways"), ("method", "Mwl")):
+            q = copy.deepcopy(p)
+            q["params"][k] = v
+            out.append(q)
+        for k, v in (("elev", 800.0), ("weather", {"p": 900.0, "t": 30.0}), ("lon", p["lon"] + 0.5), ("lat", p["lat"] - 0.5)):
+            q = copy.deepcopy(p)
+            q[k] = v
+            out.append(q)
+        return out
+    seq, idx = [], []
+    for i, p in enumerate(probes):
+        for v in variants(p):
+            seq += [v, p]
+            idx.append((i, len(seq) - 1, v))
+    outs = replay.run(seq)
+    for i, j, v in idx:
+        if outs[j].get("times") != alone[i].get("times"):
+            p = probes[i]
+            diff = [k for k in ("round", "minutes", "intervals", "angles", "asr", "ext", "method") if v["params"].get(k) != p["params"].get(k)] + \
+                   [k for k in ("elev", "weather", "lon", "lat") if v.get(k) != p.get(k)]
+            rep.violation("hidden-state", "prayer_times_dt(%s, lat %s, gmt %s) returns a different result when the previous call in the same process "
+                          "was for the same place and date with a different %s" % (p["date"], p["lat"], p["gmt"], "/".join(diff)), [v, p],
+                          {"alone": alone[i], "after_variant_call": outs[j]})
+            return True
+    rep.assumptions.append("history independence of prayer_times_dt checked natively on %d probe calls interleaved with %d calls for other places/offsets "
+                           "and %d same-place-and-date calls differing in one argument" % (len(probes), len(noise), len(idx)))
     return False
